@@ -46,6 +46,11 @@ def option_variants(rng):
         cfg["localVarPrefix"] = rng.choice(["p", "abc", "X_1"])
     if rng.random() < 0.7:
         cfg["telemetryVerbosity"] = rng.choice(["off", "Off", "OFF", "mandatory", "INFORMATION", "Debug", "DEBUG", "", "verbose", "oFF "])
+    # keys the package's own wrapper (main.js) reads from the same object, and keys nobody knows: they do not concern the native options
+    if rng.random() < 0.5:
+        cfg[rng.choice(["logLevel", "logger", "extra", "orchestrion"])] = rng.choice(["ERROR", None, 1, {"a": 1}])
+    if rng.random() < 0.3 and isinstance(cfg.get("csiMethods"), list) and cfg["csiMethods"]:
+        cfg["csiMethods"] = [dict(m, comment="why") if i == 0 else m for i, m in enumerate(cfg["csiMethods"])]
     return cfg
 
 
